@@ -11,14 +11,15 @@ Open Scope N_scope.
 (* For every class table (template length per class, with builtins.type and builtins.tuple unary) and every
    type expression t of the emitted dialect, of any depth: converting t with convert.py
    (pytd_cls_to_instance_var: a Union becomes several bindings, a generic becomes an instance whose parameters
-   hold one binding per union member, tuples, callables, type[...]) and writing the resulting variable back
+   hold one binding per union member, tuples, callables, type[...]), storing it under the importing name
+   (vm._process_annotations) and writing the resulting variable back
    with output.py (pytd_for_types / value_to_pytd_type / JoinTypes) gives t again, up to "the same type"
    ([nf]: all-Any containers are the bare class, type[Union[..]] distributes, `x = T` reads as `x: type[T]`),
    with the members of every union in the original order. *)
 Theorem conv_out_id : forall (arity : cid -> nat) (t : ty),
   arity type_id = 1%nat -> arity tuple_id = 1%nat ->
   wf_top arity t = true ->
-  nf (def_ty (out_top arity (conv_var arity t))) = nf t.
+  nf (def_ty (downstream arity t)) = nf t.
 Proof. intros arity t H1 H2. exact (conv_out_id_lemma arity H1 H2 t). Qed.
 Print Assumptions conv_out_id.
 
@@ -26,7 +27,7 @@ Print Assumptions conv_out_id.
 Theorem conv_out_canon : forall (arity : cid -> nat) (t : ty),
   arity type_id = 1%nat -> arity tuple_id = 1%nat ->
   wf_top arity t = true ->
-  canon (def_ty (out_top arity (conv_var arity t))) = canon t.
+  canon (def_ty (downstream arity t)) = canon t.
 Proof. intros arity t H1 H2. exact (conv_out_canon_lemma arity t H1 H2). Qed.
 Print Assumptions conv_out_canon.
 
@@ -34,7 +35,7 @@ Print Assumptions conv_out_canon.
 Theorem alias_out_id : forall (arity : cid -> nat) (t : ty),
   arity type_id = 1%nat -> arity tuple_id = 1%nat ->
   wf arity t = true -> is_any t = false -> nfree t = true ->
-  nf (def_ty (out_top arity (conv_alias t))) = nf (TGeneric type_id [t]).
+  nf (def_ty (out_top arity (store_name (conv_alias t)))) = nf (TGeneric type_id [t]).
 Proof. intros arity t H1 H2. exact (alias_out_id_lemma arity H1 H2 t). Qed.
 Print Assumptions alias_out_id.
 
@@ -44,7 +45,7 @@ Print Assumptions alias_out_id.
    Unsolvable).  Replayed on the real code by harness/props/c06.py (known finding). *)
 Theorem conv_out_id_full_refuted : exists t,
   wf_full_top builtin_arity t = true /\
-  canon (def_ty (out_top builtin_arity (conv_var builtin_arity t))) <> canon t.
+  canon (def_ty (downstream builtin_arity t)) <> canon t.
 Proof. exact bare_type_refuted_lemma. Qed.
 Print Assumptions conv_out_id_full_refuted.
 
@@ -60,7 +61,7 @@ Theorem stub_handoff_text :
   (* resolution *) preserves arity resolve ->
   forall t, wf_top arity t = true ->
   exists a, text_transport text print parse resolve t = Some a /\
-            canon (def_ty (out_top arity (conv_var arity a))) = canon t.
+            canon (def_ty (downstream arity a)) = canon t.
 Proof. intros arity text print parse resolve H1 H2. exact (handoff_text_lemma arity H1 H2 text print parse resolve). Qed.
 Print Assumptions stub_handoff_text.
 
@@ -75,7 +76,7 @@ Theorem stub_handoff_pickle :
   (* resolution *) preserves arity prep -> preserves arity post ->
   forall t, wf_top arity t = true ->
   exists b, pickle_transport text bytes print parse encode decode prep reorder post t = Some b /\
-            canon (def_ty (out_top arity (conv_var arity b))) = canon t.
+            canon (def_ty (downstream arity b)) = canon t.
 Proof.
   intros arity text bytes print parse encode decode prep reorder post H1 H2.
   exact (handoff_pickle_lemma arity H1 H2 text bytes print parse encode decode prep reorder post).
@@ -96,7 +97,7 @@ Theorem transports_agree :
   exists a b, text_transport text print parse resolve t = Some a /\
               pickle_transport text bytes print parse encode decode prep reorder post t = Some b /\
               canon a = canon b /\
-              canon (def_ty (out_top arity (conv_var arity a))) = canon (def_ty (out_top arity (conv_var arity b))).
+              canon (def_ty (downstream arity a)) = canon (def_ty (downstream arity b)).
 Proof.
   intros arity text bytes print parse encode decode resolve prep reorder post H1 H2.
   exact (transports_agree_lemma arity H1 H2 text bytes print parse encode decode resolve prep reorder post).
@@ -119,7 +120,7 @@ Definition ex_big : ty :=
 Example ex_big_wf : wf_top builtin_arity ex_big = true /\ length (conv_var builtin_arity ex_big) = 3%nat.
 Proof. vm_compute. split; reflexivity. Qed.
 Example ex_big_roundtrip :
-  def_ty (out_top builtin_arity (conv_var builtin_arity ex_big)) =
+  def_ty (downstream builtin_arity ex_big) =
   TUnion [ TGeneric 7 [TClass 11; TGeneric 6 [TUnion [TClass 10; TClass 32; TClass 2]]];
            TTuple [TUnion [TGeneric 1 [TClass 32]; TGeneric 1 [TClass 33]];
                    TCallable [TGeneric 6 [TNothing]] (TUnion [TGeneric 8 [TAny]; TClass 2])];
@@ -127,18 +128,26 @@ Example ex_big_roundtrip :
 Proof. vm_compute. reflexivity. Qed.
 
 (* the quirks the model mirrors *)
-Example ex_bare_type_is_any : out_top builtin_arity (conv_var builtin_arity (TClass type_id)) = DConst TAny.
+Example ex_bare_type_is_any : downstream builtin_arity (TClass type_id) = DConst TAny.
 Proof. reflexivity. Qed.
 Example ex_type_in_callable_kept :   (* Callable[[type], int] keeps `type`: printed from the class's formal parameter *)
-  out_top builtin_arity (conv_var builtin_arity (TCallable [TClass type_id] (TClass 10))) =
+  downstream builtin_arity (TCallable [TClass type_id] (TClass 10)) =
   DConst (TCallable [TGeneric type_id [TAny]] (TClass 10)).
 Proof. reflexivity. Qed.
 Example ex_optional_any :            (* a module-level variable with an Unsolvable binding is Any *)
-  out_top builtin_arity (conv_var builtin_arity (TUnion [TAny; TClass none_id])) = DConst TAny.
+  downstream builtin_arity (TUnion [TAny; TClass none_id]) = DConst TAny.
 Proof. reflexivity. Qed.
 Example ex_alias :                   (* x: type[list[int]] comes back as the alias x = list[int] *)
-  out_top builtin_arity (conv_var builtin_arity (TGeneric type_id [TGeneric 6 [TClass 10]])) =
+  downstream builtin_arity (TGeneric type_id [TGeneric 6 [TClass 10]]) =
   DAlias (TGeneric 6 [TClass 10]).
+Proof. reflexivity. Qed.
+Example ex_two_annotations_not_constant :   (* two class-valued bindings: [invalid-annotation], the name becomes Any *)
+  downstream builtin_arity (TUnion [TGeneric type_id [TGeneric 6 [TClass 10]]; TGeneric type_id [TGeneric 8 [TClass 11]]]) =
+  DConst TAny.
+Proof. reflexivity. Qed.
+Example ex_union_any_type_in_callable :     (* Callable[[], Union[Any, type]]: both instances are the Unsolvable singleton *)
+  downstream builtin_arity (TCallable [] (TUnion [TAny; TClass type_id])) =
+  DConst (TCallable [] (TUnion [TAny; TGeneric type_id [TAny]])).
 Proof. reflexivity. Qed.
 Example ex_join_optional_any : join [TAny; TClass none_id; TClass 10] = TUnion [TAny; TClass none_id].
 Proof. reflexivity. Qed.
